@@ -148,6 +148,27 @@ func redactNamespace(cmd *orderedmap.OrderedMap[string, any]) {
 	}
 }
 
+// redactNamespaceValue pseudonymises a namespace-typed stage argument: either a
+// plain name or a document of names such as {db: ..., coll: ...}.
+func redactNamespaceValue(v any) any {
+	switch vTyped := v.(type) {
+	case string:
+		return HashName(vTyped)
+	case *orderedmap.OrderedMap[string, any]:
+		newMap := orderedmap.NewOrderedMap[string, any]()
+		for el := vTyped.Front(); el != nil; el = el.Next() {
+			if name, ok := el.Value.(string); ok {
+				newMap.Set(el.Key, HashName(name))
+			} else {
+				newMap.Set(el.Key, el.Value)
+			}
+		}
+		return newMap
+	default:
+		return v
+	}
+}
+
 func redactCommand(cmd *orderedmap.OrderedMap[string, any], shouldEagerRedact bool) {
 	if cmd == nil {
 		return
@@ -371,12 +392,7 @@ func redactPipelineStage(stage interface{}, redactFieldNames bool, keyPath []str
 					continue
 				case Namespace:
 					if redactNamespaces {
-						switch vTyped := v.(type) {
-						case string:
-							newMap.Set(redactedKey, HashName(vTyped))
-						default:
-							newMap.Set(redactedKey, v)
-						}
+						newMap.Set(redactedKey, redactNamespaceValue(v))
 					} else {
 						newMap.Set(redactedKey, v)
 					}
@@ -457,12 +473,7 @@ func redactPipelineStage(stage interface{}, redactFieldNames bool, keyPath []str
 									continue
 								case Namespace:
 									if redactNamespaces {
-										switch subVTyped := subV.(type) {
-										case string:
-											newSubMap.Set(subK, HashName(subVTyped))
-										default:
-											newSubMap.Set(subK, subV)
-										}
+										newSubMap.Set(subK, redactNamespaceValue(subV))
 									} else {
 										newSubMap.Set(subK, subV)
 									}
